@@ -274,7 +274,7 @@ def check_ctor(c, rec):
 
 
 def subchecks():
-    subs = [SubCheck(k, check_history, (lambda k=k: histories(k)), quick=300, thorough=4000, shards_quick=3,
+    subs = [SubCheck(k, check_history, (lambda k=k: histories(k)), quick=500, thorough=4000, shards_quick=4,
                      shards_thorough=8) for k in ("sgd", "adam", "adamw")]
     subs.append(SubCheck("sgd_constructor", check_ctor, ctor_cases, quick=60, thorough=200))
     return subs
